@@ -1,11 +1,15 @@
 (* driver for m_convert.  Token codec (space separated, prefix form):
    pyval : N | O | B0 | B1 | I<z> | F<bits> | Y<hex> | A<hex> | S<cp,cp,..> | L<n> v.. | T<n> v.. |
            E<n> v.. | D<n> k v .. | G<n> v..
-   ctype : i<w>s | i<w>u | d | s | V t | C t | X t | U t | M k v | H k v | P a b | R<n> t |
+   ctype : i<w>s | i<w>u | d | s | p (char pointer) | V t | C t | X t | U t | M k v | H k v | P a b | R<n> t |
            St<n> (S<name> t).. | Un<n> (S<name> t).. | Ct<n> t..
    scfg  : b|a|u  n|a|8|l
    commands: rt <scfg> <ctype> <pyval> ; charp <scfg> <pyval> ; str <scfg> <pyval>;
-             fp <scfg> <ctype> <pyval> (from_py only: ok / error) *)
+             fp <scfg> <ctype> <pyval> (from_py only: ok / error);
+             charpl|strl|cplen|ssize <api 0|1|2> <scfg> <pyval> (0 = full C-API, 1 = Limited API as it is,
+               2 = Limited API with the NULL check; strlen / size());
+             asas <api> <enc> S<cps> -> ok <hexbytes|-> <length> | !Exc  (the (buffer, length) pair);
+             kind S<cps> -> <1|2|4> <ascii 0|1> (PEP 393 storage class) *)
 let tl_s s = String.sub s 1 (String.length s - 1)
 let nl_of s = nlist_of_string s
 let rec take_n f n toks = if n = 0 then ([], toks) else
@@ -45,7 +49,7 @@ let rec p_ty toks = match toks with
     (match t.[0] with
      | 'i' -> let n = String.length a in
               (TLeaf (LInt (z_of_string (String.sub a 0 (n - 1)), a.[n - 1] = 's')), r)
-     | 'd' -> (TLeaf LDouble, r) | 's' -> (TLeaf LString, r)
+     | 'd' -> (TLeaf LDouble, r) | 's' -> (TLeaf LString, r) | 'p' -> (TLeaf LCharp, r)
      | 'V' -> let (e, r') = p_ty r in (TVector e, r')
      | 'C' when a = "" -> let (e, r') = p_ty r in (TCppList e, r')
      | 'X' -> let (e, r') = p_ty r in (TSet e, r')
@@ -63,6 +67,8 @@ let p_sc st en =
   { sc_type = (match st with "b" -> SBytes | "a" -> SByteArray | "u" -> SUnicode | _ -> failwith "stype");
     sc_enc = (match en with "n" -> ENone | "a" -> EAscii | "8" -> EUtf8 | "l" -> ELatin1 | _ -> failwith "senc") }
 
+let p_api = function "0" -> Full | "1" -> Limited false | "2" -> Limited true | _ -> failwith "api"
+
 let rec s_py v = match v with
   | PNone -> "N" | PObj -> "O"
   | PBool b -> if b then "B1" else "B0"
@@ -78,7 +84,8 @@ and s_seq tag l = String.concat " " ((tag ^ string_of_int (List.length l)) :: Li
 
 let s_exc = function
   | TypeError -> "TypeError" | ValueError -> "ValueError" | OverflowError -> "OverflowError"
-  | AttributeError -> "AttributeError" | UnicodeError -> "UnicodeError"
+  | AttributeError -> "AttributeError" | UnicodeEncodeError -> "UnicodeEncodeError"
+  | UnicodeDecodeError -> "UnicodeDecodeError" | SystemError -> "SystemError"
   | IndexTooMany -> "IndexTooMany" | IndexNotEnough -> "IndexNotEnough" | Unmodelled -> "Unmodelled"
 
 let s_res = function Ok v -> s_py v | Err e -> "!" ^ s_exc e
@@ -93,6 +100,22 @@ let handle = function
       (match from_py (p_sc st en) t v with Ok _ -> "ok" | Err e -> "!" ^ s_exc e)
   | "charp" :: st :: en :: rest -> let (v, _) = p_py rest in s_res (charp_roundtrip (p_sc st en) v)
   | "str" :: st :: en :: rest -> let (v, _) = p_py rest in s_res (string_roundtrip (p_sc st en) v)
+  | "charpl" :: lim :: st :: en :: rest -> let (v, _) = p_py rest in s_res (charp_roundtrip_l (p_api lim) (p_sc st en) v)
+  | "strl" :: lim :: st :: en :: rest -> let (v, _) = p_py rest in s_res (string_roundtrip_l (p_api lim) (p_sc st en) v)
+  | "cplen" :: lim :: st :: en :: rest -> let (v, _) = p_py rest in s_res (charp_strlen_l (p_api lim) (p_sc st en) v)
+  | "ssize" :: lim :: st :: en :: rest -> let (v, _) = p_py rest in s_res (string_size_l (p_api lim) (p_sc st en) v)
+  | ["asas"; lim; en; v] ->
+      (match p_py [v] with
+       | (PStr s, _) ->
+           (match unicode_asas (p_api lim) (p_sc "b" en).sc_enc s with
+            | Ok (b, n) -> "ok " ^ (let h = hex_of_nbytes b in if h = "" then "-" else h) ^ " " ^ string_of_int (int_of_nat n)
+            | Err e -> "!" ^ s_exc e)
+       | _ -> "!ERR notstr")
+  | ["kind"; v] ->
+      (match p_py [v] with
+       | (PStr s, _) ->
+           (match kind_of s with K1BYTE -> "1" | K2BYTE -> "2" | K4BYTE -> "4") ^ " " ^ (if is_ascii s then "1" else "0")
+       | _ -> "!ERR notstr")
   | _ -> "!ERR badcmd"
 
 let () = main_loop handle
